@@ -161,7 +161,35 @@ let run_oracle (args : string list) : string =
       String.concat " " outs
   | _ -> "?bad-args"
 
+(* exp <expire_after> <op>* : the expiry machinery (Routing/Expire.v) on explicit times; same grammar and output as
+   harness/c/routing_h.c *)
+let int_of_z = function Z0 -> 0 | Zpos p -> int_of_pos p | Zneg p -> - (int_of_pos p)
+let z_of_int i = if i = 0 then Z0 else if i > 0 then Zpos (pos_of_int i) else Zneg (pos_of_int (-i))
+let zi s = z_of_int (int_of_string s)
+
+let run_exp (args : string list) : string =
+  match args with
+  | after :: ops ->
+      let x = ref (xinit (zi after)) in
+      String.concat " " (List.map (fun tok ->
+        let op = (match String.split_on_char '.' tok with
+          | ["A"; id; s; u] -> XAdd (zi id, { tv_sec = zi s; tv_usec = zi u })
+          | ["R"; id] -> XRemove (zi id)
+          | ["K"; id] -> XMark (zi id)
+          | ["I"; s1; u1; s2; u2; s3; u3] ->
+              XIter ({ tv_sec = zi s1; tv_usec = zi u1 }, { tv_sec = zi s2; tv_usec = zi u2 }, { tv_sec = zi s3; tv_usec = zi u3 })
+          | _ -> failwith ("op " ^ tok)) in
+        let (x', ex) = xstep !x op in
+        x := x';
+        let tm = x'.x_timer in
+        Printf.sprintf "%s/%d%d/%d/%d.%d/%d"
+          (if ex = [] then "-" else String.concat "," (List.map (fun i -> string_of_int (int_of_z i)) ex))
+          (if tm.tm_enabled then 1 else 0) (if tm.tm_needs_restart then 1 else 0) (int_of_z tm.tm_interval)
+          (int_of_z tm.tm_last.tv_sec) (int_of_z tm.tm_last.tv_usec) (List.length x'.x_items)) ops)
+  | _ -> "?bad-args"
+
 let () =
+  reg "exp" run_exp;
   reg "oracle" run_oracle;
   reg "plain" (fun evs -> if plain (List.map parse_event evs) then "1" else "0");
   reg "hist" (run_hist false);
